@@ -283,3 +283,47 @@ def closure_lexically_scoped(a: int, b: int, k: int, x: int) -> bool:
     r2, ok2 = _run(T3['closure_param'], v)
     r3, ok3 = _run(T3['closure_caller'], v)
     return r1 == [a, a, a, a] and r2 == [a + b, a == k, a] and r3 == [x, x] and ok1 and ok2 and ok3
+
+
+# --- added after defects reported during round 3: binding expressions neither see later bindings nor move the focus ------------------
+
+T3.update(parse_all({
+    'range_scope_for': 'for $u in (1 to 2) ! ($x + .), $x in ($p, $q) return $u',
+    'range_scope_some': 'some $u in (1 to 2) ! ($x + .), $x in ($p, $q) satisfies $u = $k',
+    'range_scope_every': 'every $u in (1 to 2) ! ($x + .), $x in ($p, $q) satisfies $u le $k',
+    'let_focus': 'let $v := //a, $w := count(/*/*) return (local-name(.), count($v), $w)',
+    'for_focus': 'for $v in (//a)[1] return local-name(.)',
+    'let_focus_twice': '(let $v := //b return local-name(.), local-name(.))',
+}))
+
+
+@ob(budget=150, bound='all integer values: the first range expression of for/some/every is a lazily evaluated map over an outer variable that a '
+                      'later clause re-binds: it sees the OUTER value for every item',
+    funcs=['elementpath/xpath_context.py:XPathContext.iter_product', O2 + ':select__for_expression', O2 + ':evaluate__quantified_expressions'])
+def range_expressions_see_outer_bindings(x: int, p: int, q: int, k: int) -> bool:
+    """
+    post: _
+    """
+    v = {'x': x, 'p': p, 'q': q, 'k': k}
+    r1, ok1 = _run(T3['range_scope_for'], v)
+    r2, ok2 = _run(T3['range_scope_some'], v)
+    r3, ok3 = _run(T3['range_scope_every'], v)
+    return r1 == [x + 1, x + 1, x + 2, x + 2] and r2 == [k in (x + 1, x + 2)] and r3 == [x + 2 <= k] and ok1 and ok2 and ok3
+
+
+@ob(budget=200, bound='4-element tree r(x(z), y), every tag in {a,b}; context item = each of the 4 elements (chosen by the solver): a let/for '
+                      'clause whose binding expression is a path from the root does not move the focus of the return expression',
+    funcs=['elementpath/xpath30/_xpath30_operators.py:select__let_expression', O2 + ':select__for_expression'])
+def binding_expressions_keep_focus(t0: str, t1: str, t2: str, t3: str, ci: int) -> bool:
+    """
+    pre: all(len(t) == 1 and 'a' <= t <= 'b' for t in (t0, t1, t2, t3)) and 0 <= ci <= 3
+    post: _
+    """
+    n = _tree(t0, t1, t2, t3, False)
+    doc = ET.ElementTree(n[0])
+    tags = [t0, t1, t2, t3]
+    item = n[[k for k in range(4) if k == ci][0]]
+    na = len([t for t in tags if t == 'a'])
+    here = item.tag
+    run = lambda key: L(T3[key].evaluate(XPathContext(doc, item=item)))   # noqa: E731
+    return run('let_focus') == [here, na, 2] and run('for_focus') == ([here] if na else []) and run('let_focus_twice') == [here, here]
